@@ -351,6 +351,7 @@ def shrink_case(prop, case, kind, wdir, budget=60):
         chunk = max(1, len(cur) // n)
         reduced = False
         for s in range(0, len(cur), chunk):
+            if time.time() - t0 >= budget: break
             cand = cur[:s] + cur[s + chunk:]
             if cand and fails(cand):
                 cur = cand; n = max(n - 1, 2); reduced = True
@@ -367,6 +368,7 @@ def shrink_case(prop, case, kind, wdir, budget=60):
             changed = False
             for i, l in enumerate(cur):
                 for cand_line in red(l):
+                    if time.time() - t0 >= budget: break
                     cand = cur[:i] + [cand_line] + cur[i + 1:]
                     if fails(cand):
                         cur = cand; changed = True
